@@ -19,7 +19,7 @@ from checks import fsfault as F
 PROP = 'C05'
 LEVEL = 'fault_enumeration'
 SHARDS = {'quick': 4, 'thorough': 16}
-BUDGET_S = {'quick': 45, 'thorough': 420}
+BUDGET_S = {'quick': 150, 'thorough': 420}
 RULE = ('configurations = overwrite x overwrite_part x rm_part_on_exc x text_mode x file_perms '
         '{None,0600,0644,0755} x umask {0,022,077} x destination {absent, present 0664} x part file '
         '{absent, foreign present} x body {normal, raises before/between/after writes, intruder creates '
@@ -332,7 +332,7 @@ def run(ctx):
     if ctx.tier == 'quick':
         sysm = sysm[::8]
     st.counters['strace_available'] = int(F.strace_available())
-    nA = {'quick': 2, 'thorough': 25}[ctx.tier]
+    nA = {'quick': 1, 'thorough': 25}[ctx.tier]
     for i, scn in enumerate(scns + sysm):
         if ctx.out_of_time():
             st.notes.append('stopped after %d/%d configurations (time budget)' % (i, len(scns) + len(sysm)))
